@@ -388,11 +388,32 @@ EXTRA5 = {
     "C19": "H8: a slow lock holder beside a loader whose lock attempts time out (deviation bound 3, thorough 4).",
     "C20": "Every entry of a time point is judged; two values of one value-taking definition.",
 }
+EXTRA6 = {
+    "C01": "Value-taking tags without any class; numbers with exponents in either letter case.",
+    "C02": "The original form through get_as_original().",
+    "C03": "Empty values and values with slashes at their ends.",
+    "C04": "Copies below redundant parentheses.",
+    "C05": "Merges of two versions of one library must refuse to save; file saves under a non-UTF-8 locale (child interpreters).",
+    "C06": "Sidecars given as lists of files; frames with categorical columns.",
+    "C08": "Definition columns with uneven entries; a lone reference in a value column without '#'.",
+    "C09": "Bulk expansion of cells whose Def tags are written in another letter case.",
+    "C10": "The same delayed marker twice in one row.",
+    "C12": "Sort labels that differ only in letter case stay grouped.",
+    "C15": "'||' as an operand of '&&' / '[ ]' with its alternatives swapped.",
+    "C16": "A root sidecar whose path is longer than that of a deeper one.",
+    "C17": "Destination values with quote characters.",
+    "C18": "Edits that keep length and modification time; a task-filtered remodel run.",
+    "C19": "H9 refresh histories in one process; H4m holders of both kinds; a schedule prefix that does not replay is a "
+           "violation (state kept in the process).",
+    "C20": "A process keeps its form between start list and later contexts when types are filtered.",
+}
 for _k, _v in EXTRA3.items():
     EXTRA[_k] = EXTRA.get(_k, "") + ("  " if _k in EXTRA else "") + _v
 for _k, _v in EXTRA4.items():
     EXTRA[_k] = EXTRA.get(_k, "") + ("  " if _k in EXTRA else "") + _v
 for _k, _v in EXTRA5.items():
+    EXTRA[_k] = EXTRA.get(_k, "") + ("  " if _k in EXTRA else "") + _v
+for _k, _v in EXTRA6.items():
     EXTRA[_k] = EXTRA.get(_k, "") + ("  " if _k in EXTRA else "") + _v
 for _k, _v in EXTRA.items():
     CHECKS[_k]["text"] += "  Extended: " + _v
